@@ -110,6 +110,9 @@ theorem run_sim : ∀ (ts : List Tok) (s s' : MS), run s ts = some s' →
 theorem wf_spec (ts : List Tok) (h : WF ts) :
     StdWF (ts.map Tok.toG) ∧ MsoWF (ts.map Tok.toG) ∧ Visible (ts.map Tok.toG) := by
   obtain ⟨h1, h2, h3⟩ := run_sim ts ⟨false, [], []⟩ ⟨false, [], []⟩ h
-  exact ⟨h1, h2, ⟨_, h3⟩⟩
+  refine ⟨h1, h2, ?_⟩
+  unfold Visible
+  rw [show start = ⟨modeOf false, []⟩ from rfl, h3]
+  rfl
 
 end Gomjml.Layout
